@@ -186,6 +186,17 @@ def rule_M8(ctx, rid='M8'):
     # ---- the centre: outermost modulo, then a linear form in x[argmax(G)] and max(G)
     inner, k = _strip_mod1(st.value, env)
     gap_exprs = []
+    not_largest = []
+    # locals with several definitions (k = argmax(...); if ...: k = ...): all their values
+    kdefs = {}
+    for s_ in walk_no_nested(f.node):
+        if isinstance(s_, ast.Assign) and len(s_.targets) == 1 and \
+                isinstance(s_.targets[0], ast.Name):
+            kdefs.setdefault(s_.targets[0].id, []).append(s_.value)
+    kdefs = {k_: v for k_, v in kdefs.items() if any(
+        isinstance(x, ast.Call) and dotted(x.func) == 'np.argmax' for x in v)}
+    for k_ in kdefs:
+        env.pop(k_, None)
 
     def csym(e):
         # max of the gap vector
@@ -242,6 +253,22 @@ def rule_M8(ctx, rid='M8'):
                     axis_faults.append(('the position `%s`' % unparse(am), am))
                 gap_exprs.append(('argmax', am.args[0], base))
                 return 's'
+        if isinstance(e, ast.Subscript) and isinstance(e.slice, ast.Name) and \
+                e.slice.id in kdefs:
+            # x[k] / gaps[k] with k a local: every definition of k must be argmax(gaps)
+            vals = kdefs[e.slice.id]
+            am = [v for v in vals if isinstance(v, ast.Call) and dotted(v.func) == 'np.argmax'
+                  and len(v.args) >= 1]
+            for v in vals:
+                if v not in am:
+                    not_largest.append((e.slice.id, v))
+            if am:
+                g_arg = am[0].args[0]
+                if unparse(e.value) == unparse(g_arg):
+                    gap_exprs.append(('max', g_arg))
+                    return 'g'
+                gap_exprs.append(('argmax', g_arg, e.value))
+                return 's'
         if isinstance(e, ast.Subscript) and isinstance(e.slice, ast.Call) and \
                 dotted(e.slice.func) == 'np.argmax' and len(e.slice.args) == 1:
             if unparse(e.value) == unparse(e.slice.args[0]):
@@ -269,6 +296,13 @@ def rule_M8(ctx, rid='M8'):
                '%s is not taken along axis 0: it mixes the periodic columns (e.g. the largest '
                'gap over ALL columns instead of each column\'s own), so a column\'s centre is '
                'not opposite its own largest gap' % axis_faults[0][0])
+    if kdefs:
+        ctx.ob(rid, 'PhaseShift.compute:always-the-largest-gap', not not_largest, f.where(st),
+               'the gap that is centred opposite the wrap position is argmax(gaps) on every path'
+               if not not_largest else
+               'on some path the index of the gap is `%s = %s` instead of argmax(gaps): a gap '
+               'that is not the largest is placed across the boundary and the largest one ends '
+               'up inside the cube' % (not_largest[0][0], unparse(not_largest[0][1])[:40]))
     gv = {unparse(g[1]) for g in gap_exprs}
     same_vec = len(gv) == 1
     ctx.ob(rid, 'PhaseShift.compute:argmax-and-max-of-same-vector', same_vec, f.where(st),
